@@ -297,12 +297,44 @@ func runConn(c *mon.Case, r *mon.Run, p params) {
 			}
 		}
 	}
+	// readers that poll (real endpoints only): a read deadline before every
+	// Read, an expired deadline means "nothing yet".  On every fourth
+	// connection from the first Read on, and there the peer's key-establishment
+	// message arrives in two parts with a pause in between (the first part ends
+	// somewhere behind the header: inside the padding if there is enough of
+	// it); on the others from the end of the scripted traffic on.
+	prng := mon.NewRand(p.seed ^ 0x9011)
+	poll := &mon.Poller{Interval: time.Duration(20+prng.IntN(60)) * time.Millisecond}
+	lifted := make(chan struct{})
+	if p.seed%4 != 1 {
+		close(lifted)
+	} else {
+		poll.Start()
+		r.Count("connections_read_by_polling_from_the_start", 1)
+		c2s.SetCut(int64(24+1+prng.IntN(40)), memwire.CutSilence)
+		s2c.SetCut(int64(24+1+prng.IntN(40)), memwire.CutSilence)
+		wg.Add(1)
+		c.Go(wg.Done, func() {
+			time.Sleep(time.Duration(100+prng.IntN(400)) * time.Millisecond)
+			c2s.SetCut(-1, memwire.CutSilence)
+			s2c.SetCut(-1, memwire.CutSilence)
+			close(lifted)
+		})
+	}
+	defer func() { r.Count("read_deadlines_expired_and_renewed", poll.Timeouts()) }()
 	reader := func(conn net.Conn, st mon.Stream, ds *dirStats, bufSeed uint64) {
 		brng := mon.NewRand(bufSeed)
 		buf := make([]byte, 20000)
 		var off int64
+		real := ds == &up && realServer || ds == &down && realClient
 		for {
-			n, err := conn.Read(buf[:1+brng.IntN(len(buf))])
+			var n int
+			var err error
+			if real {
+				n, err = poll.Read(conn, buf[:1+brng.IntN(len(buf))])
+			} else {
+				n, err = conn.Read(buf[:1+brng.IntN(len(buf))])
+			}
 			mu.Lock()
 			if n > 0 {
 				if i := st.Check(buf[:n], off); i >= 0 && ds.mismatch < 0 {
@@ -547,6 +579,7 @@ func runConn(c *mon.Case, r *mon.Run, p params) {
 	wg.Add(2)
 	c.Go(wg.Done, func() { reader(sc, cStream, &up, p.seed^0x71) })
 	c.Go(wg.Done, func() { reader(cc, sStream, &down, p.seed^0x72) })
+	<-lifted // (the readers poll while the rest of the peer's first message is on its way)
 
 	healthy := true
 	switch p.scenario {
@@ -596,6 +629,49 @@ func runConn(c *mon.Case, r *mon.Run, p params) {
 		writers.Wait()
 		synctest.Wait() // every goroutine is durably blocked: nothing more happens without new traffic
 		healthy = judge("end")
+	}
+
+	// polling phase: the real readers go on by polling, and bursts arrive in
+	// two parts with a pause between them that outlasts several deadlines
+	if healthy && (p.seed%3 == 0 || poll.On()) {
+		var rc []net.Conn
+		if realServer {
+			rc = append(rc, sc)
+		}
+		if realClient {
+			rc = append(rc, cc)
+		}
+		poll.Start(rc...)
+		synctest.Wait()
+		for round := 0; round < 4 && healthy; round++ {
+			upward := (int(p.seed>>3)+round)&1 == 0
+			if !realServer {
+				upward = false
+			} else if !realClient {
+				upward = true
+			}
+			wconn, st, ds, half := cc, cStream, &up, c2s
+			if !upward {
+				wconn, st, ds, half = sc, sStream, &down, s2c
+			}
+			t0 := poll.Timeouts()
+			half.SetCut(half.Written()+int64(1+prng.IntN(60)), memwire.CutSilence)
+			var w sync.WaitGroup
+			w.Add(1)
+			sz := 1 + prng.IntN(2500)
+			c.Go(w.Done, func() { writeOne(wconn, st, sz, ds) })
+			time.Sleep(time.Duration(150+prng.IntN(400)) * time.Millisecond)
+			half.SetCut(-1, memwire.CutSilence)
+			w.Wait()
+			synctest.Wait()
+			if poll.Timeouts() > t0 {
+				r.Count("bursts_delivered_across_expired_read_deadlines", 1)
+			}
+			healthy = judge("polling-reader")
+		}
+		if healthy {
+			r.Count("polling_phases_verified", 1)
+		}
 	}
 
 	// closing phase: one side writes a last piece and its connection ends (a
